@@ -48,7 +48,7 @@ claim("C04",
       'Bounded: split invariance of the bit reader (same bits whether delivered in one slice or cut at any point); every decoder step harness starts from an arbitrary suspended state (arbitrary bits in the register, arbitrary progress counters) and asserts that suspension consumes exactly the available input and keeps the progress needed to resume (CopyBlock, Extra/Name/Comment, LenLens, CodeLens items with their extra bits missing, LenExt/Dist/DistExt, Match partial copies in both copies of the code); the result of a step is asserted as a function of the bits alone, independent of how they arrived; flush modes only decide where a call returns (Type/TypeDo/Len_/after a stored header under Z_TREES), and the state saved there is the one the next call needs; inflate() reports BufError exactly when nothing moved or Finish could not complete.',
       'Outside: schedules of more than one suspension per harness, cuts inside dynamic-table construction; equality of two whole runs is argued by induction over steps, not decided by the solver.')
 claim("C06",
-      "Bounded: deflate()'s status machine with the compress function replaced by a contract stub: every level x strategy x flush, documented statuses only, duplicate-flush rule, a call refused for lack of output space changes nothing and its retry goes through, a flush starved inside the compress function is completed by the next call whatever flush preceded it, Finish under starved output (1..=3 bytes per call) reaches StreamEnd in at most 11 calls and every call makes progress; the real level-0 and level-1 paths never trip an assertion (Pending::extend capacity, fill_window asserts) for every input within bounds; deflatePrime for every i32 bits/value; params/tune/set_header/pending for every integer argument; deflateParams settles the hash-table maintenance level 0 deferred (one slide or a full clear) exactly when level 0 is left; deflatePrime on a finished stream followed by deflate(Z_FINISH) never aborts; a flush whose output fills the buffer exactly is continued, not refused, by the same call again; the window slide keeps `insert <= strstart` for every amount of pending insertions level 0 can leave behind; reset from an arbitrary state; allocation-failure path of deflateCopy.",
+      "Bounded: deflate()'s status machine with the compress function replaced by a contract stub: every level x strategy x flush, documented statuses only, duplicate-flush rule, a call refused for lack of output space changes nothing and its retry goes through, a flush starved inside the compress function is completed by the next call whatever flush preceded it, Finish under starved output (1..=3 bytes per call) reaches StreamEnd in at most 11 calls and every call makes progress; the real level-0 and level-1 paths never trip an assertion (Pending::extend capacity, fill_window asserts) for every input within bounds; deflatePrime for every i32 bits/value; params/tune/set_header/pending for every integer argument; reset from an arbitrary state; allocation-failure path of deflateCopy.",
       'Outside: Pending::extend capacity inside block emission for levels >= 2 (depends on lit_bufsize accounting over whole blocks); multi-call histories beyond the bounds listed per harness.')
 claim("C07",
       "Bounded and narrow: for level 0 (every input of 0..=6 bytes at w_size 16) and level 1 (every input of length 1 and 3) a "
@@ -90,16 +90,16 @@ claim("C15",
 claim("C16",
       "Bounded, rule tables transcribed from zlib.h / the vendored zlib-ng source: argument validation and status of inflatePrime, "
       "inflateSync, inflateSyncPoint, inflateValidate, inflateUndermine, inflateMark, inflateGetHeader, inflateResetKeep/Reset2 (every "
-      "i32 windowBits), inflateSetDictionary, deflatePrime (every bits/value), deflateParams (every level), deflateTune, deflateSetHeader, "
+      "i32 windowBits), inflateSetDictionary, inflateResetKeep (zlib-ng's rule table from any state), deflateSetDictionary (which bytes are loaded: the last w_size for a dictionary of w_size or more), deflateGetDictionary (length and bytes incl. the look-ahead), deflatePrime (every bits/value), deflateParams (every level), deflateTune, deflateSetHeader, "
       "deflatePending; none of them can abort.",
       "The oracle is my transcription of the rules (trusted base). Outside: data-movement equality with zlib-ng, multi-call programs, the "
       "libz-rs-sys NULL-pointer wrappers (thin, exercised by the pinned null.rs tests).")
 claim("C18",
-      "Bounded: the allocator shim for every misalignment of the user block (k < 64), size and alignment: pointer aligned and inside the block, stash word below it, exactly one zfree with the original pointer and the same opaque; oversized requests refused before zalloc; the default (Rust) allocator's own fast path refuses requests above 4 GiB instead of truncating them; a refused inflateCopy (inflateBackInit source) leaves the destination without a state, so ending it cannot release the source's block; the default-allocator fallback always leaves a matched zalloc/zfree pair (every subset of callbacks supplied by the caller), which is what lets the shim's two halves agree; failed deflateCopy: MemError, one zalloc, no zfree, destination left without state; deflate::end / inflate::end on a typed state in every status release every block exactly once through the caller's zfree (counting allocator passed through opaque).",
+      "Bounded: the allocator shim for every misalignment of the user block (k < 64), size and alignment: pointer aligned and inside the block, stash word below it, exactly one zfree with the original pointer and the same opaque; oversized requests refused before zalloc; the default-allocator fallback always leaves a matched zalloc/zfree pair (every subset of callbacks supplied by the caller), which is what lets the shim's two halves agree; failed deflateCopy: MemError, one zalloc, no zfree, destination left without state; deflate::end / inflate::end on a typed state in every status release every block exactly once through the caller's zfree (counting allocator passed through opaque).",
       'Outside: balanced alloc/free over successful init/copy histories (those success paths are not encodable), the gz layer.')
 claim("C19",
       'Bounded: inflateBack on a typed stream with a 256-byte window, concrete prefix (final fixed block, 1 or 9 literals, length-3 code, one concrete distance code per harness, all 32) + symbolic extra bits: no access outside the window (typed local object), documented status, too-far distances rejected with the literals still delivered, in-window matches produce the LZ77 bytes inflate would; after the window has wrapped (reduced instance: 16-byte window, back() takes every size from window.buffer_size()) every distance <= window is accepted and copies from the ring, larger ones are rejected; plus copy_match_back for every (filled, offset, length).',
-      'Outside: dynamic blocks, the data movement of inflate_fast_back (>= 15 input bytes; only its too-far and beyond-window verdicts are decided), callback slicing into more than one slice, output-callback refusal beyond the one reduced instance (16-byte window: refusal of the window-full flush or of the final flush ends the call and nothing is delivered twice), production window sizes for the wrapped case.')
+      'Outside: dynamic blocks, inflate_fast_back (>= 15 input bytes), callback slicing into more than one slice, output-callback abort, production window sizes for the wrapped case.')
 claim("C20",
       "Bounded: read side: every gzip header mode with capture buffers: text/time/xflags/os/extra_len/hcrc equal the stream's fields, extra/name/comment copied exactly up to the announced capacity (0..=4 inside canaried 8-byte buffers, or NULL) at the right offsets across calls and from offset 0 at field entry, absent fields reported absent, done == 1 only when the whole header was parsed (incl. header CRC verdict). Write side: deflateSetHeader only for gzip streams; the fixed 10 header bytes + trailer for a header without fields; flush_bytes (the field writer) for every field length/progress/pending room; extra, name and comment resumed after a full pending buffer continue from the byte where they stopped; a new member starts its fields from their first byte.",
       'Outside: write-side headers with several fields in one harness (out of memory), fields longer than the bounds (length-uniform loops/memcpys).')
